@@ -127,12 +127,23 @@ def insert_loops(item, body):
 
 
 def apply_inserts(item, body):
-    for (where, anchor, lines, _nth) in item.inserts:
+    # positions are resolved on the text before any insertion so that `#n` ordinals refer to the real body
+    todo = []
+    for (where, anchor, lines, nth) in item.inserts:
         rx = re.compile(lit_to_re(anchor), re.S)
         ms = list(rx.finditer(body))
-        if len(ms) != 1:
+        if nth is None and len(ms) != 1:
             raise LostAnchor('item %s: insert anchor %r matched %d times' % (item.id, anchor, len(ms)))
-        m = ms[0]
+        if nth is not None and (len(ms) < abs(nth) or nth == 0):
+            raise LostAnchor('item %s: insert anchor %r #%d but only %d matches' % (item.id, anchor, nth, len(ms)))
+        m = ms[0] if nth is None else (ms[nth - 1] if nth > 0 else ms[nth])
+        todo.append((m.end() if where == 'after' else m.start(), lines))
+    for (pos, lines) in sorted(todo, key=lambda t: -t[0]):
+        text = '\n' + '\n'.join(lines) + '\n'
+        body = body[:pos] + text + body[pos:]
+    return body
+    for (where, anchor, lines, _nth) in []:
+        m = None
         text = '\n' + '\n'.join(lines) + '\n'
         pos = m.end() if where == 'after' else m.start()
         body = body[:pos] + text + body[pos:]
@@ -227,6 +238,10 @@ class Unit:
                 elif word == 'ins':
                     where, _, r = rest.partition(' ')
                     m = re.match(r'^⟦(.*)⟧\s*$', r.strip(), re.S)
+                    nth = None
+                    if '#' in where:
+                        where, nth = where.split('#')
+                        nth = int(nth)
                     if not m or where not in ('after', 'before'):
                         raise UnitError('%s:%d bad ins directive' % (self.path, i + 1))
                     blk = []
@@ -234,7 +249,7 @@ class Unit:
                     while not lines[i].strip().startswith('//@ endins'):
                         blk.append(lines[i])
                         i += 1
-                    item.inserts.append((where, m.group(1), blk, None))
+                    item.inserts.append((where, m.group(1), blk, nth))
                 elif word == 'body':
                     self.items.append(item)
                     self.chunks.append(('item', item, item.lineno))
@@ -313,8 +328,8 @@ class Unit:
                     raise LostAnchor('item %s: real signature changed: %r (expected %r)' % (it.id, norm_ws(real['sig']), it.sig))
                 body = real['body']
                 body = apply_rewrites(it, body, rewrites_log)
-                body = insert_loops(it, body)
                 body = apply_inserts(it, body)
+                body = insert_loops(it, body)
                 emit(['// ---- item %s  <- %s:%d  %s' % (it.id, real['file'], real['line'], norm_ws(real['sig']))], kind='marker', item=it.id)
                 emit(it.contract, kind='contract', item=it.id, unit_line=it.lineno)
                 emit(body.split('\n'), kind='body', item=it.id, real_file=real['file'], real_line=real['line'])
